@@ -84,6 +84,30 @@ def build_expr(rng):
             t0 = t
     if not terms:
         raise RuntimeError("no term")
+    # a second term built from the same objects with differently wired contracted indices
+    # (one tensor transposed in two contracted indices): same object descriptions, other value
+    if t0 is not None and rng.random() < 0.35:
+        from adcgen.indices import Index
+        from sympy import Mul
+        facs = [f_ for f_ in Mul.make_args(t0) if f_.atoms(Index)]
+        cnt = {}
+        for f_ in facs:
+            for s_ in f_.atoms(Index):
+                cnt[s_] = cnt.get(s_, 0) + 1
+        contracted = [s_ for s_ in cnt if s_ not in T]
+        opts = []
+        for f_ in facs:
+            here = [s_ for s_ in f_.atoms(Index) if s_ in contracted]
+            for n_, x in enumerate(here):
+                for y in here[n_ + 1:]:
+                    if x.space == y.space and x.spin == y.spin:
+                        opts.append((f_, x, y))
+        if opts and len(facs) >= 2:
+            f_, x, y = rng.choice(opts)
+            f2 = f_.xreplace({x: y, y: x})
+            t1 = t0 / f_ * f2
+            if t1 is not S.Zero:
+                terms.append(rng.choice([2, -1, Rational(1, 2), -3]) * t1)
     # add symmetry partners so that permutation operators appear in the output
     if len(T) >= 2 and rng.random() < 0.5:
         by_space = {}
